@@ -282,6 +282,8 @@ def handle (op : String) (args : List String) : Option String :=
     match oracle name args with
     | some b => some (boolStr b)
     | none => some "false"      -- an output that does not even parse as a mesh violates the contract
+  else if (op == "c03.op.laplacian" || op == "c03.op.laplacian_shape") && knownPanic "laplacian" args then
+    some "panic"
   else if op == "c03.op.laplacian" || op == "c03.op.laplacian_shape" then
     -- the Laplacian line is split: `laplacian_shape` = topology, indices, materials, attribute names and lengths (EXACT);
     -- `laplacian` = the values of the smoothed attribute only (compared within the stated tolerance: Go sums the
